@@ -44,12 +44,12 @@ def dump(mod, f):
 def gen_script(rng, n):
     ops = []
     for _ in range(n):
-        k = rng.randrange(17)
+        k = rng.randrange(20)
         p, q = rng.choice(PATHS), rng.choice(PATHS)
         key, v = rng.choice(KEYS), rng.choice(VALS)
         ops.append([("create_group", p), ("set", p, v), ("del", p), ("contains", p), ("get", p), ("attr_set", p, key, v),
                     ("attr_del", p, key), ("attr_get", p, key), ("require_group", p), ("require_dataset", p, v),
-                    ("copy", p, q), ("move", p, q), ("keys", p), ("visit",), ("len", p), ("attr_keys", p), ("create_dataset", p, v)][k])
+                    ("copy", p, q), ("move", p, q), ("keys", p), ("visit",), ("len", p), ("attr_keys", p), ("create_dataset", p, v), ("copy_shallow", p, q), ("copy_noattrs", p, q), ("copy_node", p, q)][k])
     return ops
 
 
@@ -105,6 +105,15 @@ def apply(mod, f, op):
             return ("ok", f.require_dataset(op[1], shape=(), dtype="i8", data=v).name)
         if kind == "copy":
             f.copy(op[1], op[2])
+            return "ok"
+        if kind == "copy_shallow":
+            f.copy(op[1], op[2], shallow=True)
+            return "ok"
+        if kind == "copy_noattrs":
+            f.copy(op[1], op[2], without_attrs=True)
+            return "ok"
+        if kind == "copy_node":
+            f.copy(f[op[1]], f.require_group(op[2]))
             return "ok"
         if kind == "move":
             src = "/" + "/".join(x for x in op[1].split("/") if x and x != ".")
